@@ -527,7 +527,23 @@ type c12Reg struct {
 func c12Regressions() []c12Reg {
 	s := cty.StringVal
 	l := func(vs ...cty.Value) cty.Value { return cty.ListVal(vs) }
-	return []c12Reg{
+	// jsondecode looks at the refined prefix of an unknown string to predict the type or to refuse early: documents
+	// with every kind of JSON whitespace in front, weakened to an unknown with each true prefix (a seeded change
+	// skipped space, tab and LF but not CR: the known call succeeded, the weakened one failed)
+	var jd []c12Reg
+	for _, ws := range []string{"\r\n", "\r", " \r ", "\n\r ", "\t\r\n  ", " ", "\n", "\t \n"} {
+		for _, doc := range []string{`"hello"`, "true", "12", "[1]", `{"a":1}`, "null"} {
+			full := ws + doc
+			for n := 1; n <= len(ws)+2 && n <= len(full); n++ {
+				var w cty.Value
+				if p, _ := try(func() { w = cty.UnknownVal(cty.String).Refine().NotNull().StringPrefixFull(full[:n]).NewValue() }); p {
+					continue
+				}
+				jd = append(jd, c12Reg{"JSONDecodeFunc", []cty.Value{s(full)}, []cty.Value{w}})
+			}
+		}
+	}
+	return append(jd, []c12Reg{
 		// escaped percent signs before the first verb and an unknown argument (prefix refinement of format)
 		{"FormatFunc", []cty.Value{s("100%% of %s"), s("disk")}, []cty.Value{s("100%% of %s"), cty.UnknownVal(cty.String)}},
 		{"FormatFunc", []cty.Value{s("%%%s"), s("x")}, []cty.Value{s("%%%s"), cty.UnknownVal(cty.String).RefineNotNull()}},
@@ -537,7 +553,7 @@ func c12Regressions() []c12Reg {
 			[]cty.Value{s("%s %s"), l(cty.UnknownVal(cty.String), s("a")), l(s("x"), s("y"))}},
 		{"FormatListFunc", []cty.Value{s("%s%s%s"), l(s("b"), s("a"), s("c")), cty.TupleVal([]cty.Value{s("x"), cty.True, cty.Zero}), l(s("p"), s("q"), s("r"))},
 			[]cty.Value{s("%s%s%s"), l(s("b"), cty.UnknownVal(cty.String).RefineNotNull(), s("c")), cty.TupleVal([]cty.Value{cty.UnknownVal(cty.String), cty.True, cty.Zero}), l(s("p"), s("q"), s("r"))}},
-	}
+	}...)
 }
 
 // c12CostlySet: v holds a known set with more than 6 members that is not wholly known
